@@ -48,8 +48,9 @@ LEVEL_TEXT = (
     "+,-,scalar *,/,@,.T,.H,.conj(),gram_op, vertical/diagonal stacks, replication along any axes satisfies "
     "<Ax,y>=<x,A^H y> if its leaves do (also in Re<.,.> with real scalars); .H is the conjugate transpose, .T the plain "
     "transpose, .conj() the entrywise conjugate, real => T = H; MatrixOperator, CircularConvolve (incl. batch-axis sum), "
-    "scatter-add/gather (all index arrays) leaf adjoints; clamped gather = adjoint iff detector covers the shadow "
-    "(X-ray defect recorded: negation proved + partial theorem); linear_adjoint branches given the jax.linear_transpose "
+    "scatter-add/gather (all index arrays) leaf adjoints; X-ray back-projectors as coded since e359064 (fill-0 gather) are "
+    "the adjoints of the projectors for every geometry, 2-D and 3-D incl. the slab loops (full statement; the clamped "
+    "gather of the pinned tree is kept as a proved negation); linear_adjoint branches given the jax.linear_transpose "
     "contract; identity on basis pairs => identity for all vectors.  C01_adj_total: for every typed derivation tree "
     "accepted by scico's construction tests without a sum of operands on different dtypes (recorded finding, shown "
     "necessary), over leaves that return their declared types, adj passes every dtype/shape guard for the conforming y "
@@ -101,15 +102,13 @@ ASSUMPTIONS = [
     "linearity of eval/adj of every operator (property C06) - lets the finite basis-pair check decide the identity for all vectors (theorem C01_basis)",
     "jax.linear_transpose returns the transposed map (contract JaxTranspose of theorem C01_linear_adjoint_*; exercised by every Generic configuration)",
     "jnp.fft.fftn/ifftn compute the DFT (CircularConvolve is modelled in the signal domain and compared numerically)",
-    "jax scatter drops / gather clamps out-of-range indices (modelled; compared on every X-ray configuration)",
+    "jax scatter `.at[].add` drops and gather `.at[].get(mode='fill')` zero-fills out-of-range indices (modelled; compared on every X-ray configuration)",
     "row-major flattening identifies N-d arrays and BlockArrays with vectors",
     "ifftn is a real multiple of the conjugate transpose of fftn (hypothesis of C01_circ_dft_domain; the 1-D DFT pair is proved to satisfy it, the tie compares Op.spectral built from the object's own h_dft)",
     "jax.dtypes.result_type under x64 for float/complex dtypes and weak Python scalars (modelled as DT.promote / SK.res; compared at every typed-tree node)",
 ]
 
 MAX_SLICE_LEN = 10  # XRayTransform3D._project / _back_project
-KNOWN_XRAY2 = "xray2d-backproject-clamp"
-KNOWN_XRAY3 = "xray3d-backproject-clamp"
 KNOWN_ABEL = "abel-adj-odd-width"
 
 
@@ -261,10 +260,10 @@ def xray2_model(A):
         I = [int(v) for v in inds[a].ravel()]
         w = weights[a].ravel()
         for off, ww in ((0, w), (1, 1.0 - w)):
-            leaves.append({"t": "scat", "np": npix, "ny": ny, "I": I, "off": off, "w": fs2b(ww), "exact": False})
+            leaves.append({"t": "scat", "np": npix, "ny": ny, "I": I, "off": off, "w": fs2b(ww), "exact": True})
             for p in range(npix):
-                idx = (I[p] if I[p] >= 0 else ny) + off
-                if idx >= ny and ww[p] != 0.0:
+                idx = I[p] + off  # negative values are redirected per bin (repo e359064)
+                if not (0 <= idx < ny) and ww[p] != 0.0:
                     off_detector = True
         ops.append({"k": "add", "a": {"k": "leaf", "i": 2 * a}, "b": {"k": "leaf", "i": 2 * a + 1}})
     tree = {"k": "vstack", "ops": ops, "nin": npix}
@@ -287,14 +286,14 @@ def xray3_model(A):
         base = len(leaves)
         for (da, db), w in (((0, 0), ulw), ((1, 0), urw), ((0, 1), llw), ((1, 1), lrw)):
             w = np.asarray(w, dtype=np.float64).ravel()
-            leaves.append({"t": "scat2", "np": nvox, "d0": det[0], "d1": det[1], "a": a, "b": b, "da": da, "db": db, "w": fs2b(w), "exact": False})
+            leaves.append({"t": "scat2", "np": nvox, "d0": det[0], "d1": det[1], "a": a, "b": b, "da": da, "db": db, "w": fs2b(w), "exact": True})
             if ish[0] > MAX_SLICE_LEN:
-                # the slab loops of the code (Model: slabScatter / slabGather; theorem C01_xray3d_slab_loop): the indices
+                # the slab loops of the code (Model: slabScatter / slabGatherFill; theorems C01_xray3d_slab_loop, C01_xray3d_slab): the indices
                 # of slab k computed with slice_offset = 10 k are the whole-volume ones at flat positions k*B + p
                 leaves[-1]["B"] = MAX_SLICE_LEN * ish[1] * ish[2]
                 leaves[-1]["nslab"] = -(-ish[0] // MAX_SLICE_LEN)
             for p in range(nvox):
-                if w[p] != 0.0 and not (a[p] + da < det[0] and b[p] + db < det[1]):
+                if w[p] != 0.0 and not (0 <= a[p] + da < det[0] and 0 <= b[p] + db < det[1]):
                     off_detector = True
         t = {"k": "leaf", "i": base}
         for k in range(1, 4):
@@ -305,33 +304,28 @@ def xray3_model(A):
 
 
 def xray_tie(ctx, model, cfg, A, res):
-    """model <-> code for an X-ray configuration; returns the known-finding id that explains a failed adjoint
-    obligation (or None)"""
+    """model <-> code for an X-ray configuration: the scatter(drop) / gather(fill 0) tree assembled from the
+    implementation's own `_calc_weights` output must reproduce `project` and `back_project` (since e359064 the coded
+    back-projector is the fill-0 gather: theorems C01_xray_backproject, C01_xray_projector, C01_xray3d_slab - the
+    adjoint obligation must hold for EVERY geometry, on or off the detector)"""
     is2 = cfg["cls"] == "XRayTransform2D"
     leaves, tree, off = (xray2_model if is2 else xray3_model)(A)
     if res.get("RA") is None:
         return None
     diff = compare_model(model, leaves, tree, res, False, False)
     ctx.count("xray-model-tie")
+    ctx.count(f"xray footprint-leaves-detector={off}")
     if diff is not None:
         ctx.disagree("adjoint.xray_model", {"cfg": cfg}, {"impl": "dense matrices of project/back_project"}, diff, oracle=make_oracle(),
-                     note="scatter(drop)/gather(clamp) model of the projector differs from the implementation")
+                     note="scatter(drop)/gather(fill 0) model of the projector differs from the implementation")
         return None
-    # the exact-adjoint variant of the model must be an adjoint pair (instance of the theorem, sanity)
-    leaves_x = [{k: v for k, v in dict(l, exact=True).items() if k not in ("B", "nslab")} for l in leaves]
-    rep = model.call("derive", leaves=leaves_x, tree=tree)
+    # the model itself must be an adjoint pair (instance of the theorems; a failure here is a harness/driver bug)
+    rep = model.call("derive", leaves=leaves, tree=tree)
     n, m = rep["nin"], rep["nout"]
     RE, _ = model_realmat(rep["eval"], m, n, False, False)
     RJ, _ = model_realmat(rep["adj"], n, m, False, False)
     if not D.mat_close(RJ, RE.T, 1e-9):
-        raise common.Infra("model: scatter/gatherFill0 is not an adjoint pair - contradicts theorem C01_scatter_gather")
-    failed = any(t == "adjoint" for t, _ in res["fails"])
-    ctx.count(f"xray off-detector={off} adjoint-fails={failed}")
-    if failed and off:
-        return KNOWN_XRAY2 if is2 else KNOWN_XRAY3
-    if failed != off:
-        # theorem gatherClamp_eq_fill_iff: the coded back-projector is the adjoint iff nothing (with weight) is off
-        ctx.disagree("adjoint.xray_iff", {"cfg": cfg}, {"adjoint_fails": failed}, {"off_detector": off}, oracle=make_oracle())
+        raise common.Infra("model: scatter/gatherFill0 is not an adjoint pair - contradicts theorem C01_xray_projector")
     return None
 
 
@@ -1028,8 +1022,6 @@ def findings(ctx, model):
     common.setup_scico()
     rng = np.random.Generator(np.random.PCG64(7))
     wit = {
-        KNOWN_XRAY2: {"cls": "XRayTransform2D", "ishape": [3, 3], "angles": [0.0], "det_count": 2},
-        KNOWN_XRAY3: {"cls": "XRayTransform3D", "ishape": [2, 2, 2], "det": [2, 2], "angles": [0.0], "seq": "Z", "shift": [1.25, -0.75]},
         KNOWN_ABEL: {"cls": "AbelTransform", "ishape": [3, 3]},
     }
     fdc = {"cls": "SingleAxisFiniteDifference", "ishape": [3], "axis": -1, "prepend": None, "append": None, "circular": True, "dt": G.R64}
@@ -1097,11 +1089,7 @@ def search(ctx, model, why):
         ctx.count("search:cases")
         if bad is None:
             continue
-        if cfg["cls"] in ("XRayTransform2D", "XRayTransform3D") and (ctx.is_known(KNOWN_XRAY2) or ctx.is_known(KNOWN_XRAY3)):
-            continue
         if cfg["cls"] == "AbelTransform" and ctx.is_known(KNOWN_ABEL):
-            continue
-        if cfg["cls"] == "Derived" and "XRay" in json.dumps(cfg):
             continue
         with warnings.catch_warnings():
             warnings.simplefilter("ignore")
